@@ -34,7 +34,7 @@ def generate(seed, tier):
     for n in range(0, maxlen + 1):
         for _ in range(60 if tier == 'quick' else 500):
             texts.append(json.dumps([corpus.valid_element(rnd) for _ in range(n)]))
-    texts += corpus.malformed_texts() + corpus.scalar_texts() + corpus.huge_int_texts() + corpus.nested_texts()
+    texts += corpus.malformed_texts() + corpus.scalar_texts() + corpus.huge_int_texts() + corpus.nested_texts() + corpus.special_batches()
     cases = []
     for t in texts:
         try:
